@@ -5,6 +5,7 @@
 mod e_builder;
 mod e_convert;
 mod e_hasher;
+mod e_incoming;
 mod e_prefix;
 mod gen;
 mod json;
@@ -29,6 +30,7 @@ fn main() {
         "convert" => e_convert::run(seed, n, tier),
         "builder" => e_builder::run(seed, n, tier),
         "hasher" => e_hasher::run(seed, n, tier),
+        "incoming" => e_incoming::run(seed, n, tier),
         _ => {
             eprintln!("unknown engine {engine}");
             std::process::exit(2);
